@@ -1,3 +1,4 @@
+import RodbusModel.Props.C05Cancel
 import RodbusModel.Props.C01Write
 import RodbusModel.Props.C07
 import RodbusModel.Props.C03
@@ -30,3 +31,4 @@ import RodbusModel.Props.C04
 #print axioms Rodbus.C01W.write_failure_ends_session
 #print axioms Rodbus.C01W.write_failure_unreached
 #print axioms Rodbus.C01W.write_failure_session
+#print axioms Rodbus.Cancel.session_cancel_safe_with_write_fault
